@@ -6,10 +6,10 @@ CONSTANTS
   RawW = FALSE
   RawR = FALSE
   RawTotal = 0
-  Tmos <- T1
-  MaxT = 1
-  Spurious = TRUE
-  Interrupts = FALSE
+  Tmos <- TI
+  MaxT = 0
+  Spurious = FALSE
+  Interrupts = TRUE
   Bug = "none"
 INVARIANTS ViewIsFunctionOfMoved StreamExact ReadWriteComplete RecvSendBounds NoHangPastTimeout WaitsOnlyForData
 CHECK_DEADLOCK FALSE
